@@ -409,4 +409,38 @@ theorem lastDash_of_mem {y : Bytes} (h : cDash ∈ y) : ∃ j, lastDash y = some
       | some k => exact ⟨k + 1, by simp, by have := lastDash_lt rest k hld; simp; omega⟩
       | none => exact ⟨0, by simp [ha], by simp⟩
 
+/-! ## at most one colon is rewritten -/
+
+/-- number of positions where a `:` of the source became `/` -/
+def colonRewrites : Bytes → Bytes → Nat
+  | t :: rest, c :: out => (if t == cColon && c == cSlash then 1 else 0) + colonRewrites rest out
+  | _, _ => 0
+
+theorem rewrite_colon_count : ∀ (out : Bytes) (first conv : Bool) (s : Bytes),
+    Rewrite first conv s out → colonRewrites s out ≤ (if conv then 0 else 1) := by
+  intro out
+  induction out with
+  | nil => intro first conv s _; cases s <;> simp [colonRewrites]
+  | cons c out ih =>
+    intro first conv s h
+    cases s with
+    | nil => simp [Rewrite] at h
+    | cons t rest =>
+      simp only [Rewrite] at h
+      obtain ⟨conv', hstep, hrest⟩ := h
+      have := ih false conv' rest hrest
+      simp only [colonRewrites]
+      rcases hstep with ⟨rfl, _, rfl, _⟩ | ⟨rfl, rfl, rfl⟩ | ⟨rfl, rfl, _, rfl, rfl, _⟩
+      · have : (c == cColon && c == cSlash) = false := by
+          by_cases hc : c = cColon
+          · subst hc; decide
+          · simp [hc]
+        simp only [this]
+        simpa using ‹colonRewrites rest out ≤ _›
+      · have : (cBack == cColon && cSlash == cSlash) = false := by decide
+        simp only [this]
+        simpa using ‹colonRewrites rest out ≤ _›
+      · simp at this ⊢
+        omega
+
 end Xmp.PathSafe
